@@ -10,6 +10,7 @@ from harness.util import R, untraced
 
 PREFIXES = ['/p', '/p/', '/', '/p/q', '/x/y/']
 MODES = [S_REDIRECT, S_REWRITE, S_STRICT]
+VIA_ADD = [False]
 
 
 class TraceMW(Middleware):
@@ -52,9 +53,9 @@ class TagEH(ErrorHandler):
         ErrorHandler.__init__(self)
         self.tag = tag
 
-    def render_error(self, request, _error):
+    def render_error(self, request, _error, eh_res):
         _error.adapt('text/plain')
-        _error.headers['X-EH'] = self.tag
+        _error.headers['X-EH'] = '%s eh_res=%s' % (self.tag, eh_res)       # the error renderer sees the serving application's resources
         return _error
 
 
@@ -102,7 +103,7 @@ def build_nested(levels):
     insts = []
     for li, lv in enumerate(levels):
         insts.append(dict(mws=_mws(lv['mws'], 'L%d' % li),
-                          res=({'r': 'r@L%d' % li} if lv['res'] else {}),
+                          res=dict({'eh_res': 'eh@L%d' % li}, **({'r': 'r@L%d' % li} if lv['res'] else {})),
                           factory=mk_factory('L%d' % li) if lv['factory'] else None,
                           eh=TagEH('L%d' % li)))
         if lv['res'] == 2:
@@ -112,12 +113,19 @@ def build_nested(levels):
         lv, ins = levels[li], insts[li]
         if li == n - 1:
             routes = [Route(p, ep, render=rn, methods=m) for (p, ep, rn, m) in LEAF_ROUTES]
+            inner = Application(routes, resources=ins['res'], middlewares=ins['mws'], render_factory=ins['factory'],
+                                error_handler=ins['eh'], slash_mode=lv['mode'])
         else:
             child = levels[li + 1]
-            routes = [SubApplication(child['prefix'], inner, rebind_render=child['rebind'], inherit_slashes=child['inherit']),
-                      Route('/own%d' % li, _ep_plain, render='tmpl_own')]
-        inner = Application(routes, resources=ins['res'], middlewares=ins['mws'], render_factory=ins['factory'],
-                            error_handler=ins['eh'], slash_mode=lv['mode'])
+            app = Application([], resources=ins['res'], middlewares=ins['mws'], render_factory=ins['factory'],
+                              error_handler=ins['eh'], slash_mode=lv['mode'])
+            if VIA_ADD[0]:
+                # the embedding options given as keywords of add()
+                app.add((child['prefix'], inner), rebind_render=child['rebind'], inherit_slashes=child['inherit'])
+            else:
+                app.add(SubApplication(child['prefix'], inner, rebind_render=child['rebind'], inherit_slashes=child['inherit']))
+            app.add(Route('/own%d' % li, _ep_plain, render='tmpl_own'))
+            inner = app
     return inner, insts
 
 
@@ -257,9 +265,10 @@ def enc(prefix_i=0, mws_i=0, res=0, mode_i=0, inherit=1, rebind=0):
     return prefix_i + 5 * (mws_i + 7 * (res + 3 * (mode_i + 3 * (inherit + 2 * rebind))))
 
 
-def ob_slash2(prefix_i: int, m0: int, m1: int, inherit: bool, rebind: bool) -> bool:
-    """prefix x slash modes x inherit_slashes x rebind_render, depth 2"""
+def ob_slash2(prefix_i: int, m0: int, m1: int, inherit: bool, rebind: bool, via_add: bool = False) -> bool:
+    """prefix x slash modes x inherit_slashes x rebind_render (given to SubApplication or as add() keywords), depth 2"""
     with untraced():
+        VIA_ADD[0] = bool(via_add)
         return _equiv([enc(mode_i=m0, mws_i=1, res=1), enc(prefix_i, 3, 2, m1, int(inherit), int(rebind))])
 
 
@@ -276,7 +285,8 @@ def ob_depth3(a: int, b: int, c: int, p1: int, p2: int, inh: int, reb: int, res_
         return _equiv([enc(mws_i=a, res=r0, mode_i=0), enc(p1, b, r1, 1, inh % 2, reb % 2), enc(p2, c, r2, 2, inh // 2, reb // 2)])
 
 
-def confirm_slash2(prefix_i, m0, m1, inherit, rebind):
+def confirm_slash2(prefix_i, m0, m1, inherit, rebind, via_add=False):
+    VIA_ADD[0] = bool(via_add)
     return not _equiv([enc(mode_i=m0, mws_i=1, res=1), enc(prefix_i, 3, 2, m1, int(inherit), int(rebind))])
 
 
